@@ -190,9 +190,50 @@ def evaluate(case):
         return Eval([sut.exc_violation(case)])
 
 
+def eval_incarnations(case):
+    """`id+letters` atoms past the alphabet: one id reused n times; every label of every incarnation, used as an object
+    atom (`3ab`, `@3ab`, `#3ab`, `3ab.done`), selects the lines of that incarnation and no other."""
+    from . import histcheck as hc
+    from ..ref import objtable as ot
+    V = []
+    try:
+        variant = hc.VARIANTS['client']
+        hist = hc.deep_chain(variant, case['reuses'], 1)
+        lines, exps, ref = hc.render_history(hist, variant)
+        s = sut.Session()
+        shown = []
+        for l in lines:
+            o, _ = s.feed_line(l)
+            shown += [x for x in o if outparse.classify(x)[0] == 'message']
+        sets = {}
+        for i, e in enumerate(exps):
+            labs = {e['target']} | {lab for k, lab in e['args'] if k in ('obj', 'new')} | ({e['destroyed'][0]} if e['destroyed'] else set())
+            for lab in labs:
+                sets.setdefault(lab, set()).add(i)
+        for lab, want in sorted(sets.items()):
+            short = lab.split('@', 1)[1]
+            if not short.startswith('3'):
+                continue
+            for spelling in (short, '@' + short, '#' + short):
+                o, e = s.cmd('list ' + spelling)
+                got = [x for x in o if outparse.classify(x)[0] == 'message']
+                if got != [shown[i] for i in sorted(want)] or e:
+                    V.append(Violation('select.incarnation_letters', case, {'matcher': spelling, 'expected': [shown[i] for i in sorted(want)],
+                                                                            'observed': got[:6], 'err': e}))
+                    break
+            if len(V) >= 3:
+                break
+    except Exception:
+        V.append(sut.exc_violation(case))
+    return Eval(V, outcome=len(V), nontrivial=True, transitions=case['reuses'] * 3)
+
+
 def run(run, tier, seed):
     sut.bind()
     sut.ensure_protocols()
+    n_reuse = 60 if tier == 'quick' else 720
+    res0 = explore.prod(lambda: iter([{'reuses': n_reuse}]), eval_incarnations, workers=1, bound={'reuses_of_one_id': n_reuse})
+    run.add_part('incarnation_letters', res0)
     for v in check_universe():
         run.violations.setdefault(v.key(), v)
     res = explore.prod(lambda: gen_cases(tier), evaluate, seed=seed,
@@ -212,4 +253,6 @@ def replay(case):
     sut.ensure_protocols()
     if case.get('universe'):
         return check_universe()
+    if 'reuses' in case:
+        return eval_incarnations(case).viols
     return evaluate(case).viols
